@@ -125,7 +125,7 @@ def run(eng, ctx):
                         else:
                             ctx.bad("C05.D3", disp.qualname, f"[{case}] {norm(e.node)}", expected="dispatcher only raises or reports", found=show(t)[:60], **eng.loc(disp, e.node))
                 dloc = eng.loc(disp, disp.node)
-                uncond = lambda e: not e.guards  # noqa: E731
+                uncond = lambda e: not e.guards and any(len(c_) == 0 for c_ in (e.dnf or ((),)))  # noqa: E731
                 if mname == "ERR_RAISE":
                     ok = len(raises) >= 1 and uncond(raises[0]) and raises[0].term == errp and not [s for s in sinks if s[1].seq < raises[0].seq]
                     ctx.check(ok, "C05.D3", subject, f"[{case}] raise mode", expected="unconditional `raise err` before any sink", found=f"{len(raises)} raise(s) " + (guard_text(raises[0].guards)[:60] if raises else "") + f", {len(sinks)} sink call(s)", **dloc)
